@@ -291,3 +291,18 @@ mod tests {
         }
     }
 }
+
+#[cfg(feature = "verif-hooks")]
+pub mod vh {
+    use super::*;
+
+    pub fn welzl(points: &[DVec3]) -> Sphere {
+        Welzl::bounding_sphere(points)
+    }
+    pub fn epos6(points: &[DVec3]) -> Sphere {
+        Epos6::bounding_sphere(points)
+    }
+    pub fn epos6_of_spheres(spheres: &[Sphere]) -> Sphere {
+        Epos6::bounding_sphere_of_spheres(spheres)
+    }
+}
